@@ -122,6 +122,53 @@ Definition denote_body (neg : bool) (r0 : list ascii) : option Q :=
 Definition denote (s : list ascii) : option Q :=
   let (neg, r0) := take_sign s in denote_body neg r0.
 
+(* The same grammar with the value kept symbolic: (neg, num, den, e) stands for +-(num/den) * 10^e.  Computing the
+   power of ten is left to the caller (the model runner uses it for exponents of four and more digits, where the
+   unary-free but list-based arithmetic of the extracted [pow10] is too slow).  Literal_Proofs.denote_sci_spec ties
+   it to [denote]. *)
+Definition sci := (bool * Z * Z * Z)%type.
+
+Definition sci_val (t : sci) : Q :=
+  let '(neg, n, d, e) := t in apply_sign neg ((n # Z.to_pos d) * pow10 e)%Q.
+
+Definition sci_exp (neg : bool) (n k : Z) (r : list ascii) : option sci :=
+  match r with
+  | [] => Some (neg, n, 1, k)
+  | c :: r3 =>
+      if is_e c then
+        let (eneg, r4) := take_sign r3 in
+        let (ed, r5) := take_digits r4 in
+        match ed, r5 with
+        | _ :: _, [] => Some (neg, n, 1, k + (if eneg then - digits_val ed else digits_val ed))
+        | _, _ => None
+        end
+      else None
+  end.
+
+Definition sci_frac (neg : bool) (ip : list Z) (r2 : list ascii) : option sci :=
+  let (dp, r3) := take_digits r2 in
+  match ip, dp, r3 with
+  | _ :: _, _ :: _, [] => if digits_val dp =? 0 then None else Some (neg, digits_val ip, digits_val dp, 0)
+  | _, _, _ => None
+  end.
+
+Definition sci_dec (neg : bool) (ip : list Z) (r1 : list ascii) : option sci :=
+  let (fp, r2) := take_frac r1 in
+  match ip ++ fp with
+  | [] => None
+  | _ :: _ => sci_exp neg (digits_val (ip ++ fp)) (- Z.of_nat (length fp)) r2
+  end.
+
+Definition sci_body (neg : bool) (r0 : list ascii) : option sci :=
+  let (ip, r1) := take_digits r0 in
+  match r1 with
+  | c :: r2 => if is_slash c then sci_frac neg ip r2 else sci_dec neg ip r1
+  | [] => sci_dec neg ip []
+  end.
+
+Definition denote_sci (s : list ascii) : option sci :=
+  let (neg, r0) := take_sign s in sci_body neg r0.
+
 (* ---------------------------------------------------------------- ratFromString: intended and as coded *)
 
 (* soplex::infinity = 1e100 as a double, exactly *)
@@ -368,6 +415,9 @@ Definition nearest_doubleb (q : Q) (m0 e0 : Z) : bool :=
 
 (* |q| >= 2^1024 - 2^970: round-to-nearest overflows to an infinity *)
 Definition overflowsb (q : Q) : bool := qleb (inject_Z (2 ^ 1024 - 2 ^ 970)) (Qabs q).
+
+(* |q| <= 2^-1075: round-to-nearest(-even) gives zero *)
+Definition underflowsb (q : Q) : bool := qleb (Qabs q) (1 # (2 ^ 1075)).
 
 (* ---------------------------------------------------------------- rational printer *)
 
